@@ -227,7 +227,7 @@ func execFn(f []string) vlib.Res {
 	}
 	if f[1] == "new" {
 		switch f[0] {
-		case "mc", "mnz", "mttl", "nsttl", "lease", "rem", "repl":
+		case "mc", "mnz", "mttl", "nsttl", "lease", "rem", "repl", "dpx":
 			return vlib.Res{Impl: "ok"} // case header of a stateless group (shrinker anchor)
 		}
 	}
@@ -372,6 +372,25 @@ func execFn(f []string) vlib.Res {
 			}
 		}
 		return vlib.Res{Impl: fmtT(got) + " " + strconv.FormatUint(gk, 10), Oracle: or, Tags: "nt"}
+	case "dpx":
+		// lifetime of a denial proof the cache synthesizes from (RFC 8198 index; the RFC 8020 cut uses the same bounds):
+		// dpx <now> <maxTTL s> <cut|z> <soa ttl> <soa minimum> <nsec ttls|->
+		now, maxTTL, cut := parseT(f[1]), time.Duration(vlib.AtoI64(f[2]))*time.Second, parseT(f[3])
+		soaTTL, soaMin, nsec := uint32(vlib.AtoU64(f[4])), uint32(vlib.AtoU64(f[5])), parseTTLs(f[6])
+		exp, ok := cache.VerifC08DenialProofExpiry(now, maxTTL, cut, soaTTL, soaMin, nsec)
+		impl := "none"
+		or := "ok"
+		if ok {
+			impl = fmtT(exp)
+			// property: a synthesized denial ends with the lease it was learned through, and with every proof component
+			switch {
+			case !cut.IsZero() && exp.After(cut):
+				or = "FAIL sig=denialProofExpiry/outlives-cut"
+			case exp.After(now.Add(time.Duration(soaMin)*time.Second)) || exp.After(now.Add(time.Duration(soaTTL)*time.Second)):
+				or = "FAIL sig=denialProofExpiry/outlives-soa"
+			}
+		}
+		return vlib.Res{Impl: impl, Oracle: or, Tags: "nt"}
 	case "repl":
 		// the prefetch write-back on the REAL Store.ReplaceIfCurrent:
 		// repl <have> <kind> <ttl s> <cut of the claimed entry|z> <cut of the refresh|z> <cutKey>
@@ -476,7 +495,18 @@ func genTTLs(r *vlib.R, allowEmpty bool) string {
 func genFnCase(r *vlib.R, emit func(string)) int {
 	n := 0
 	e := func(s string) { emit(s); n++ }
-	switch r.Intn(9) {
+	switch r.Intn(10) {
+	case 9: // synthesized denials
+		e("dpx new")
+		for i := 0; i < 8; i++ {
+			now := int64(r.Intn(100000)) * 1e9
+			cut := "z"
+			if r.Chance(3, 4) {
+				cut = tilde(r, fmt.Sprint(now+vlib.Pick(r, []int64{-1e9, 0, 1, 1e9, 2e9, 5e9, 30e9, 300e9, 3600e9, 86400e9})+int64(r.Range(-1, 1))))
+			}
+			e(fmt.Sprintf("dpx %s %d %s %d %d %s", tilde(r, fmt.Sprint(now)), vlib.Pick(r, []int{0, -1, 5, 60, 3600, 10800, 10801, 86400}), cut,
+				vlib.Pick(r, []int{0, 1, 5, 300, 3600, 86400}), vlib.Pick(r, []int{0, 1, 5, 300, 3600, 86400}), genTTLs(r, true)))
+		}
 	case 8: // prefetch write-back
 		e("repl new")
 		for i := 0; i < 8; i++ {
@@ -673,6 +703,7 @@ func facts() map[string]any {
 	out := map[string]any{
 		"maximumTTL_ns":    int64(authority.VerifC08MaximumTTL()),
 		"lease_ceiling_ns": int64(authority.VerifC08LeaseCeiling()),
+		"max_denial_proof_ttl_ns": int64(cache.VerifC08MaxDenialProofTTL()),
 	}
 	for k, v := range monoFacts() {
 		out[k] = v
